@@ -108,6 +108,7 @@ WITNESSES += [  # statements that carry trivia a coercion has to strip: trailing
     ('-1 + 2j', 'expr'), ('-1j + 2j', 'expr'), ('-(3j) - (4j)', 'expr'), ('1j + 2j', 'expr'), ('-1j', 'expr'), ('-1.5 - 0j', 'expr'),
     ('(-(1)) + (2j)', 'expr'), ('-True + 1j', 'expr'), ('+1 + 1j', 'expr'), ('-a + 1j', 'expr'), ('1 + 2', 'expr'), ('1 - -2j', 'expr'),
     ('--1', 'expr'), ('-1 + 2j | 3', 'expr'), ('[-1j + 2j, -0 - 0j]', 'expr'), ('{-1 + 1j: a, -2j - 1j: b}', 'expr'),
+    ('(a) | b | c', 'pattern'), ('((a)) | b | (c) | d', 'pattern'), ('(\n a) | b | c', 'pattern'), ('(a | b) | c | (d)', 'pattern'),
     ('None, True', 'expr'), ("[None, 1, -1, 's', 1+2j, -1-2j]", 'expr'), ('None, -1, 1+2j', 'pattern'), ('_ as a', 'withitem'),
 ]
 
